@@ -120,7 +120,7 @@ PROPS = {
         "chain": [chain("query", 32, 20, 400, 35)],
         "corpus": ["witness", "regress", "known"],
         "relevant": rel_kinds(("I", "K", "B", "E", "Q"), lambda k: True),
-        "level_text": "Proof: c20_pages_partition_by_key (for every store section, filter and limit 1 <= L < 2^64, following next_key from a first request without key returns every matching entry exactly once, in store order, and nothing else: unbounded in the number of entries and pages), c20_pages_partition_by_offset (+ drop_take_partition), c20_key_and_offset_rejected, c20_pages_partition_by_key_reverse (the same for reverse walks), c20_purchase_orders_walk, c20_wrkchains_walk, c20_beacons_walk, c20_streams_walk (also the by-sender list), c20_streams_by_receiver_walk (instances for every list query in every reachable state; the stream lists for addresses of any byte lengths), c20_listed_*_eq_point_query, c20_queries_do_not_modify_state.",
+        "level_text": "Proof: c20_pages_partition_by_key (for every store section, filter and limit 1 <= L < 2^64 - 1 (at query.MaxLimit = 2^64 - 1 the SDK's `end+1` wraps and the first page may be cut short: modelled and exhibited, the walk still completes), following next_key from a first request without key returns every matching entry exactly once, in store order, and nothing else: unbounded in the number of entries and pages), c20_pages_partition_by_offset (+ drop_take_partition), c20_key_and_offset_rejected, c20_pages_partition_by_key_reverse (the same for reverse walks), c20_purchase_orders_walk, c20_wrkchains_walk, c20_beacons_walk, c20_streams_walk (also the by-sender list), c20_streams_by_receiver_walk (instances for every list query in every reachable state; the stream lists for addresses of any byte lengths), c20_listed_*_eq_point_query, c20_queries_do_not_modify_state.",
         "level_note": "Theorems are about Paginate.filtered, the transcription of the SDK's FilteredPaginate / GenericFilteredPaginate / Paginate (types/query, v0.47.13: trusted transcription, validated by the correspondence), and about the list queries of the four modules built on it (Model/Query.lean). The tie is differential: every list query of the real app through ABCI Query (gRPC route) with generated page requests - complete key walks, offset walks, count_total, reverse, key+offset, absent and upper-case filters - vs. the compiled model, after every block; the harness also compares every listed item with its point query (pm must be 0). Store iteration order (ascending bytes) is the IAVL contract and is assumed; reverse iteration is covered by the correspondence only.",
         "assumptions": ["store iteration is ascending byte order (IAVL contract)", "address bytes are 20 bytes and distinct per address (stream and whitelist sections)", "EntQ for the purchase-order instance"],
     },
@@ -203,7 +203,7 @@ PROPS = {
         "assumptions": ["RateQ as in C11", "Small: every balance below 2^255 (2^254 for cancel) so that the bank's 256-bit integers cannot overflow"],
     },
     "C07": {
-        "chain": [chain("reg", 24, 25, 300, 40), chain("all", 16, 25, 200, 40), chain("authz", 8, 20, 100, 30), chain("query", 8, 20, 60, 30)],
+        "chain": [chain("reg", 24, 25, 300, 40), chain("all", 16, 25, 200, 40), chain("authz", 8, 20, 100, 30), chain("query", 8, 20, 60, 30), chain("genesis", 8, 25, 60, 30)],
         "corpus": ["witness", "regress"],
         "relevant": rel_kinds(REG_TAGS, is_reg),
         "level_text": "Proof: c07_records_immutable (a stored record is returned unchanged or pruned in every later state of every run, never overwritten, never back), c07_no_backfill, c07_wrk_record_accepts_only_higher, c07_bcn_ids_consecutive (+ first id is 1), c07_rejected_tx_changes_nothing; all unbounded in the number and interleaving of operations.",
@@ -211,7 +211,7 @@ PROPS = {
         "assumptions": ["RegQ: no registration id, height counter or record count has reached 2^64-1", "message fields are uint64 (protobuf)"],
     },
     "C08": {
-        "chain": [chain("reg", 24, 25, 300, 40), chain("all", 16, 25, 200, 40), chain("authz", 8, 20, 100, 30), chain("gov", 8, 20, 100, 30)],
+        "chain": [chain("reg", 24, 25, 300, 40), chain("all", 16, 25, 200, 40), chain("authz", 8, 20, 100, 30), chain("gov", 8, 20, 100, 30), chain("genesis", 8, 25, 60, 30)],
         "corpus": ["witness", "regress", "large"],
         "relevant": rel_kinds(REG_TAGS, is_reg),
         "level_text": "Proof: in every reachable state BEACON retains exactly the contiguous newest ids first..last with num = last-first+1 <= limit (c08_bcn_retained_is_newest), WRKChain retains a strictly increasing key list whose length, head and bound are the reported counters (c08_wrk_counters_match_store); each accepted record prunes exactly the oldest when full (c08_*_prune_one_at_a_time); the limit starts at the default, changes only by an owner's purchase, by exactly n, never above max (c08_purchase_raises_by_exactly_n, c08_limit_changes_only_by_purchase); remaining capacity = max(0,max-limit).",
